@@ -19,6 +19,20 @@ import (
 
 const sigCache = "C10:block-cache-serves-uncommitted-or-stale-block"
 
+// every index read on the store object — point or iterating — sees the index writes pending in the current block
+const sigPending = "C10:index-iteration-misses-pending-writes-of-the-block"
+
+// liveBlockAt: the block at height h as the store object must see it: the one pending in the current block,
+// else the committed one
+func (c *kase) liveBlockAt(h uint64) (b *refBlock, pending bool) {
+	for i := len(c.pendIdx) - 1; i >= 0; i-- {
+		if e := &c.pendIdx[i]; e.hasBlk && e.h == h {
+			return e, true
+		}
+	}
+	return c.refBlockAt(c.ref.version, h, false), false
+}
+
 type refBlock struct {
 	ver    uint64 // version it was committed at
 	h      uint64
@@ -197,10 +211,22 @@ func (c *kase) getBlockByHeight(vw string, h uint64, headerOnly bool) blockObs {
 	line := fmt.Sprintf("%s %s %d", op, vw, h)
 	c.op(line, got.String())
 	c.o.Count("oracle:block-read")
-	if len(c.pendIdx) != 0 && vw == "live" {
-		return got // the store's own pending index operations: not a committed-history question
-	}
 	want := c.refBlockAt(c.viewVersion(vw), h, false)
+	if len(c.pendIdx) != 0 && vw == "live" {
+		// the store object sees its own pending index operations
+		w, pending := c.liveBlockAt(h)
+		if !sameBlock(got, w, !headerOnly) {
+			c.purgeCache()
+			again := read()
+			c.op(line, again.String())
+			sig := "C10:block-read-differs-from-committed-history"
+			if pending && sameBlock(blockObs{h: again.h, hash: again.hash}, w, false) {
+				sig = sigPending // the pending block is found (point reads) but its transactions (iteration) are not
+			}
+			c.fail(sig, fmt.Sprintf("%s answered %q (and %q with the cache purged); the store has indexed, pending in the current block, %s", line, got.String(), again.String(), showRef(w)))
+		}
+		return got
+	}
 	if !sameBlock(got, want, !headerOnly) {
 		c.purgeCache()
 		again := read()
@@ -393,6 +419,16 @@ func (c *kase) getTxs(vw string, h uint64) {
 	}
 	c.op(fmt.Sprintf("gtxs %s %d", vw, h), res)
 	if vw == "live" && len(c.pendIdx) != 0 {
+		if w, pending := c.liveBlockAt(h); pending {
+			same := len(got) == len(w.txs)
+			for i := 0; same && i < len(got); i++ {
+				same = bytes.Equal(got[i], w.txs[i])
+			}
+			if !same {
+				c.fail(sigPending, fmt.Sprintf("gtxs live %d answered %s; the block indexed for that height, pending in the current block, has %d txs", h, res, len(w.txs)))
+			}
+			c.o.Count("oracle:pending-txs-by-height")
+		}
 		return
 	}
 	var want [][]byte
@@ -500,6 +536,115 @@ func (c *kase) rollbackIndex() {
 }
 
 // ---- the fixed sequences of the block-cache finding ------------------------------------------------
+
+// pendingIndexWitness: the fixed sequences of the finding "iteration through the block store's indexer does not
+// show the index writes pending in the current block" (the block-level indexer Txn was built with sort=false).
+// Part A is in the model's vocabulary (block + txs, then the per-height tx list and the block, cache purged);
+// parts B and C use the checkpoint / double-signer API exactly as the FSM does — through per-transaction nested
+// stores, flushed into the block's store — and are checked by the oracle only.
+func pendingIndexWitness(o *drv.Out) {
+	store.VerifPurgeBlockCache()
+	c := newCase(o, "witness-index-iteration-sees-pending-writes", [][]byte{{1, 'a'}}, [][]byte{nil})
+	defer c.close()
+	fail := func(desc string) {
+		c.o.Fail(sigPending, desc, map[string]any{"case": c.name, "ops": append([]string{}, c.history...)})
+	}
+	// A: a block is being applied: QC and block with two txs indexed, not committed
+	c.set([]byte{1, 'a'}, []byte{1})
+	hash, t1, t2 := h32("pend/blk/1"), h32("pend/tx/1"), h32("pend/tx/2")
+	c.indexQC(1, hash)
+	c.indexBlock(1, hash, [][]byte{t1, t2})
+	c.purgeCache()
+	c.getTxs("live", 1)
+	c.getBlockByHeight("live", 1, false)
+	c.getTx("live", t1)
+	// B: transactions of the same block index a checkpoint and a double signer through their nested stores
+	s := c.base
+	step := func(what string, ok bool) {
+		c.history = append(c.history, what)
+		c.o.Count("oracle:pending-index-iteration")
+		if !ok {
+			fail(what + ": not so")
+		}
+	}
+	cps := func(r lib.RIndexerI, chain uint64) (hs []uint64) {
+		l, _ := r.GetAllCheckpoints(chain)
+		for _, x := range l {
+			hs = append(hs, x.Height)
+		}
+		return
+	}
+	eq := func(a []uint64, b ...uint64) bool {
+		if len(a) != len(b) {
+			return false
+		}
+		for i := range a {
+			if a[i] != b[i] {
+				return false
+			}
+		}
+		return true
+	}
+	addr := bytes.Repeat([]byte{0xD7}, 20)
+	hasDS := func(r lib.RIndexerI) bool {
+		l, _ := r.GetDoubleSigners()
+		for _, d := range l {
+			if bytes.Equal(d.Id, addr) {
+				return true
+			}
+		}
+		return false
+	}
+	n := s.NewTxn()
+	_ = n.IndexCheckpoint(2, &lib.Checkpoint{Height: 10, BlockHash: h32("cp10")})
+	_ = n.IndexDoubleSigner(addr, 1)
+	step("tx1 in NewTxn(): IndexCheckpoint(2,10) IndexDoubleSigner; its own GetAllCheckpoints(2) = [10]", eq(cps(n, 2), 10))
+	_ = n.Flush()
+	step("after tx1.Flush(): the block store's GetAllCheckpoints(2) = [10]", eq(cps(s, 2), 10))
+	mr, _ := s.GetMostRecentCheckpoint(2)
+	step("the block store's GetMostRecentCheckpoint(2).Height = 10 (the ordering check of the next certificate result)", mr != nil && mr.Height == 10)
+	step("the block store's GetDoubleSigners() lists the double signer", hasDS(s))
+	n2 := s.NewTxn()
+	step("tx2 in NewTxn(): its GetAllCheckpoints(2) = [10]", eq(cps(n2, 2), 10))
+	_ = n2.DeleteCheckpointsForChain(2)
+	_ = n2.Flush()
+	step("after tx2: DeleteCheckpointsForChain(2), Flush(): the block store's GetAllCheckpoints(2) = []", eq(cps(s, 2)))
+	n3 := s.NewTxn()
+	_ = n3.IndexCheckpoint(2, &lib.Checkpoint{Height: 20, BlockHash: h32("cp20")})
+	_ = n3.IndexCheckpoint(2, &lib.Checkpoint{Height: 30, BlockHash: h32("cp30")})
+	_ = n3.Flush()
+	c.commit()
+	step("after Commit: GetAllCheckpoints(2) = [20 30], the double signer is listed", eq(cps(s, 2), 20, 30) && hasDS(s))
+	// C: pending entries over committed ones: order, no duplicates, overwrites, deletes
+	c.set([]byte{1, 'a'}, []byte{2})
+	n4 := s.NewTxn()
+	_ = n4.IndexCheckpoint(2, &lib.Checkpoint{Height: 25, BlockHash: h32("cp25")})
+	_ = n4.IndexCheckpoint(2, &lib.Checkpoint{Height: 30, BlockHash: h32("cp30'")})
+	_ = n4.IndexCheckpoint(2, &lib.Checkpoint{Height: 5, BlockHash: h32("cp5")})
+	_ = n4.Flush()
+	step("next block, tx: IndexCheckpoint(2,25) (2,30)' (2,5), Flush(): the block store's GetAllCheckpoints(2) = [5 20 25 30], each once, in order", eq(cps(s, 2), 5, 20, 25, 30))
+	h30, _ := s.GetCheckpoint(2, 30)
+	l30, _ := s.GetAllCheckpoints(2)
+	step("… and (2,30) reads the pending hash, by Get and by iteration", bytes.Equal(h30, h32("cp30'")) && len(l30) == 4 && bytes.Equal(l30[3].BlockHash, h32("cp30'")))
+	mr, _ = s.GetMostRecentCheckpoint(2)
+	step("GetMostRecentCheckpoint(2).Height = 30", mr != nil && mr.Height == 30)
+	step("a read-only view of the committed version still has [20 30]", func() bool {
+		ro, e := s.NewReadOnly(1)
+		if e != nil {
+			return false
+		}
+		defer ro.Discard()
+		return eq(cps(ro, 2), 20, 30)
+	}())
+	n5 := s.NewTxn()
+	_ = n5.DeleteCheckpointsForChain(2)
+	step("tx: DeleteCheckpointsForChain(2): its own GetAllCheckpoints(2) = []", eq(cps(n5, 2)))
+	_ = n5.Flush()
+	mr, _ = s.GetMostRecentCheckpoint(2)
+	step("after Flush(): the block store's GetAllCheckpoints(2) = [] (pending deletes hide the committed entries), most recent height 0", eq(cps(s, 2)) && mr != nil && mr.Height == 0)
+	c.commit()
+	step("after Commit: GetAllCheckpoints(2) = []", eq(cps(s, 2)))
+}
 
 func cacheWitnesses(o *drv.Out) {
 	mk := func(name string) *kase {
